@@ -1129,3 +1129,58 @@ add("featureRounding", "Pose", ["C01"], "acryo/loader/_misc.py", "const", [],
                            "pl.Series('align-dy', np.round(local_shifts[:, 1], 2))",
                            "pl.Series('align-dx', np.round(local_shifts[:, 2], 2))",
                            "pl.Series('align-dzrot', np.round(rotvec[:, 0], 5))")))
+
+
+# ==========================================================================================
+# C11  rigid-motion algebra of molecule poses
+# ==========================================================================================
+_ROTF = "acryo/molecules/_rotation.py"
+add("axesAreImagesOfUnitVectors", "Rigid", ["C11"], _CORE, "const", [],
+    pattern(lambda t: (_has(ast.unparse(func(t, "Molecules.x")), "self._rotator.apply(np.array([0.0, 0.0, 1.0]))")
+                       and _has(ast.unparse(func(t, "Molecules.y")), "self._rotator.apply(np.array([0.0, 1.0, 0.0]))")
+                       and _has(ast.unparse(func(t, "Molecules.z")), "self._rotator.apply(np.array([1.0, 0.0, 0.0]))"))))
+add("crossIsNegatedNumpyCross", "Rigid", ["C11"], _CORE, "const", [],
+    pattern(lambda t: _has(ast.unparse(func(t, "cross")), "return -np.cross(x, y, axis=axis)")))
+add("axesToRotatorBuildsColumns", "Rigid", ["C11"], _ROTF, "const", [],
+    pattern(lambda t: _has(ast.unparse(func(t, "axes_to_rotator")),
+                           "y0 = _normalize(np.atleast_2d(y))",
+                           "z0 = _extract_orthogonal(y0, _normalize(np.atleast_2d(z)))",
+                           "z0 = _normalize(z0)", "x0 = -np.cross(y0, z0, axis=1)",
+                           "return Rotation.from_matrix(np.stack([z0, y0, x0], axis=2))")))
+add("fromAxesCompletesTriad", "Rigid", ["C11"], _CORE, "const", [],
+    pattern(lambda t: _has(ast.unparse(func(t, "Molecules.from_axes")),
+                           "z = cross(x, y, axis=1)", "y = cross(z, x, axis=1)",
+                           "rotator = axes_to_rotator(z, y)")))
+
+
+def _euler_table(t):
+    fn = func(t, "translate_euler")
+    _has(ast.unparse(fn), "table = str.maketrans({'x': 'z', 'z': 'x', 'X': 'Z', 'Z': 'X'})",
+         "return seq[::-1].translate(table)")
+    _has(ast.unparse(func(t, "from_euler_xyz_coords")), "seq = translate_euler(seq)",
+         "return Rotation.from_euler(seq, angles[..., ::-1], degrees)")
+    return True
+
+
+add("eulerTranslation", "Rigid", ["C11"], _ROTF, "const", [], pattern(_euler_table))
+add("eulerAngleReverses", "Rigid", ["C11"], _CORE, "const", [],
+    pattern(lambda t: _has(ast.unparse(func(t, "Molecules.euler_angle")), "seq = translate_euler(seq)",
+                           "return self._rotator.as_euler(seq, degrees=degrees)[..., ::-1]")))
+add("localCoordCenter", "Rigid", ["C11", "C02"], _CORE, "expr", [("s", I)],
+    lambda t: first(assign_rhs(func(t, "Molecules.local_coordinates"), "center"), ast.ListComp).elt)
+add("localCoordStructure", "Rigid", ["C11"], _CORE, "const", [],
+    pattern(lambda t: _has(ast.unparse(func(t, "Molecules.local_coordinates")),
+                           "vec_z = cross(vec_x, vec_y)",
+                           "(np.arange(s, dtype=np.float32) - c for s, c in zip(shape, center))",
+                           "x_ax: NDArray[np.float32] = vec_x[:, np.newaxis] * ind_x",
+                           "y_ax: NDArray[np.float32] = vec_y[:, np.newaxis] * ind_y",
+                           "z_ax: NDArray[np.float32] = vec_z[:, np.newaxis] * ind_z",
+                           "shifts = self.pos[index] / scale")))
+add("affineMatrixStructure", "Rigid", ["C11"], _CORE, "const", [],
+    pattern(lambda t: _has(ast.unparse(func(t, "Molecules.affine_matrix")),
+                           "mat = self._rotator.inv().as_matrix()", "mat = self.matrix()",
+                           "translation_0[:, :3, 3] = dst", "translation_1[:, :3, 3] = -src",
+                           "np.einsum('nij,njk,nkl->nil', translation_0, rot_mat, translation_1)")))
+add("translateAddsWorld", "Rigid", ["C11"], _CORE, "const", [],
+    pattern(lambda t: _has(ast.unparse(func(t, "Molecules.translate")),
+                           "coords = self._pos + np.asarray(shifts, dtype=np.float32)")))
